@@ -24,13 +24,20 @@ theorem footer_total (len : Nat) (hdr : Option (List UInt8)) (p : List UInt8) :
   ⟨gzipFooter_no_panic len hdr, legacyFooter_no_panic len hdr, extFooter_no_panic len hdr,
     zstdFooter_no_panic p⟩
 
+/-- A gzip-based footer that is accepted names a TOC inside the blob's coordinate system: its offset is
+never negative, so `Open` never takes the "external TOC" branch (`ParseTOC(nil)`) for the two
+built-in gzip decompressors (commit 18babb7; only `externaltoc` answers -1). -/
+theorem footer_offset_nonneg (len : Nat) (hdr : Option (List UInt8)) (f : Footer) :
+    (gzipFooter len hdr = Outcome.ok f → 0 ≤ f.tocOffset) ∧ (legacyFooter len hdr = Outcome.ok f → 0 ≤ f.tocOffset) :=
+  ⟨gzipFooter_nonneg len hdr f, legacyFooter_nonneg len hdr f⟩
+
 /-- The parsers do accept something: a regular eStargz footer with TOC offset 0x2a. -/
 example : gzipFooter 51 (some ([83, 71, 22, 0] ++ [48, 48, 48, 48, 48, 48, 48, 48, 48, 48, 48, 48, 48, 48, 50, 97] ++
     stargzMagic)) = Outcome.ok ⟨42, 42, 0⟩ := by decide
 
-/-- A sign is accepted by `strconv.ParseInt`: the TOC offset of a gzip footer can be negative. -/
+/-- `strconv.ParseInt` accepts a sign; a negative TOC offset is refused since commit 18babb7. -/
 example : gzipFooter 51 (some ([83, 71, 22, 0] ++ [45, 48, 48, 48, 48, 48, 48, 48, 48, 48, 48, 48, 48, 48, 48, 49] ++
-    stargzMagic)) = Outcome.ok ⟨-1, -1, 0⟩ := by decide
+    stargzMagic)) = Outcome.err := by decide
 
 /-! ## Open -/
 
@@ -159,38 +166,26 @@ example : (initTree [⟨["f", "d"], .reg, []⟩, ⟨["l"], .hardlink, ["f", "d"]
 
 /-! ## fs/reader `file.ReadAt` -/
 
-/-- For every read `(len p, off)` whose range does not overflow `int64` and every sequence of
-answers of the metadata store whose chunk triples are sane (offset ≥ 0, offset + size within
-`int64`, size allocatable), `file.ReadAt` never panics: every slice expression is in range. -/
+/-- For EVERY read `(len p, off)` (any `int64` offset, any slice length) and every sequence of
+answers of the metadata store (any `int64` chunk triples, any number of bytes delivered, any
+chunk-cache behaviour) `file.ReadAt` never panics: every slice expression is in range.  The one
+thing left to assume is that the chunk sizes are allocatable (`c.cs ≤ bound`); the offset ≥ 0 and
+overflow side conditions the earlier version of this theorem needed are now checked by the code
+(`chunkContains`, commit 95288ee) and are part of the model. -/
 theorem read_arith_total_partial (bound lenP off : Int) (script : List Chunk)
-    (hoff : 0 ≤ off) (hl : 0 ≤ lenP) (hr : off + lenP < 9223372036854775808)
+    (hoff : I64 off) (hl : lenP < 9223372036854775808)
     (hs : ∀ c ∈ script, ChunkSane bound c) :
     (fileReadAt bound lenP off script).2 ≠ Outcome.panic :=
-  (readLoop_spec bound lenP off script 0 [] hoff hl hr (Int.le_refl 0) hs).1
+  (readLoop_spec bound lenP off script 0 [] hoff hl (Int.le_refl 0) hs).1
 
-/-- The full statement of the property: ANY chunk triple made of `int64`s, any read. -/
+/-- The full statement of the property: no assumption on the sizes the TOC names. -/
 def ReadArithTotalFull : Prop :=
-  ∀ (bound lenP off : Int) (script : List Chunk), 0 ≤ lenP → lenP ≤ 1048576 → 0 ≤ off → off ≤ 4096 →
+  ∀ (bound lenP off : Int) (script : List Chunk), 0 < bound → I64 off → lenP < 9223372036854775808 →
     (∀ c ∈ script, I64 c.co ∧ I64 c.cs) → (fileReadAt bound lenP off script).2 ≠ Outcome.panic
 
-/-- It does not hold for the current code.  A single-chunk file of 100 bytes whose TOC entry carries
-`chunkOffset = -2^63+10`: a 200-byte read at offset 5 passes the validation of commit 42545b8
-(`expectedSize` wraps around to exactly `len p`) and then slices `ip[2^63-5 : -2^63+195]`. -/
-theorem read_arith_total_full_fails : ¬ ReadArithTotalFull := by
-  intro h
-  have := h 4611686018427387904 200 5 [⟨-9223372036854775798, 100, 100, -1⟩] (by decide) (by decide)
-    (by decide) (by decide) (by
-      intro c hc
-      simp only [List.mem_singleton] at hc
-      subst hc
-      unfold I64
-      simp only []
-      exact ⟨by omega, by omega⟩)
-  exact this (by decide)
-
-/-- Second witness: the chunk size is used as an allocation size whatever the blob and the read
-are: a 4096-byte read of a file whose TOC claims one chunk of `bound + 4097` bytes grows a buffer of that many
-bytes; whatever `bound` the machine has, the TOC names a larger size. -/
+/-- The chunk size is used as an allocation size whatever the blob and the read are: a 4096-byte
+read of a file whose TOC claims one chunk of `bound + 4097` bytes grows a buffer of that many
+bytes; whatever `bound` the machine has, the TOC names a larger size (known finding). -/
 theorem read_alloc_unbounded (bound : Int) (hb : 0 < bound) (hbig : bound + 4097 < 9223372036854775808) :
     (fileReadAt bound 4096 0 [⟨0, bound + 4097, 0, -1⟩]).2 = Outcome.panic := by
   unfold fileReadAt readLoop
@@ -215,19 +210,39 @@ theorem read_alloc_unbounded (bound : Int) (hb : 0 < bound) (hbig : bound + 4097
     rw [if_neg this]
     have : bound + 4097 > bound := by omega
     simp only [this, if_true]
-  have hg : ¬ (bound + 4097 ≤ 0 ∨ (4096 : Int) ≤ 0 ∨ (4096 : Int) > 4096 - 0) := by omega
+  have hcc : chunkContains 0 (bound + 4097) (wrap64 (0 + 0)) = true := by
+    unfold chunkContains wrap64
+    simp only [decide_eq_true_eq]
+    omega
+  have hg : ¬ (chunkContains 0 (bound + 4097) (wrap64 (0 + 0)) = false ∨ (4096 : Int) ≤ 0 ∨ (4096 : Int) > 4096 - 0) := by
+    rw [hcc]; simp
   rw [if_neg (by decide : ¬ ((0 : Int) ≥ 4096))]
   simp only [e1, e2, e3]
   rw [if_neg hg, hh]
   simp only [hm]
 
+theorem read_arith_total_full_fails : ¬ ReadArithTotalFull := by
+  intro h
+  have := h 1099511627776 4096 0 [⟨0, 1099511627776 + 4097, 0, -1⟩] (by decide) (by unfold I64; omega) (by decide) (by
+    intro c hc
+    simp only [List.mem_singleton] at hc
+    subst hc
+    unfold I64
+    simp only []
+    exact ⟨by omega, by omega⟩)
+  exact this (read_alloc_unbounded 1099511627776 (by decide) (by decide))
+
+/-- The wrap-around input of the repaired defect (chunkOffset = -2^63+10 on a 100-byte file,
+200-byte read at 5) is now answered with an error. -/
+example : (fileReadAt 4611686018427387904 200 5 [⟨-9223372036854775798, 100, 100, -1⟩]).2 = Outcome.err := by decide
+
 /-- When every answer of the store delivers at least one byte the loop advances: it makes at
 most `len p + 1` iterations however long the store keeps answering. -/
 theorem read_progress_partial (bound lenP off : Int) (script : List Chunk)
-    (hoff : 0 ≤ off) (hl : 0 ≤ lenP) (hr : off + lenP < 9223372036854775808)
+    (hoff : I64 off) (hl0 : 0 ≤ lenP) (hl : lenP < 9223372036854775808)
     (hs : ∀ c ∈ script, ChunkSane bound c) (hn : ∀ c ∈ script, 0 < c.n) :
     (countC (fileReadAt bound lenP off script).1 : Int) ≤ lenP + 1 := by
-  have := (readLoop_spec bound lenP off script 0 [] hoff hl hr (Int.le_refl 0) hs).2 hn
+  have := (readLoop_spec bound lenP off script 0 [] hoff hl (Int.le_refl 0) hs).2 hn
   unfold fileReadAt
   have h0 : countC ([] : List REv) = 0 := rfl
   rw [h0] at this
@@ -235,19 +250,20 @@ theorem read_progress_partial (bound lenP off : Int) (script : List Chunk)
 
 /-- The full statement: the loop advances for every store. -/
 def ReadProgressFull : Prop :=
-  ∀ (bound lenP off : Int) (script : List Chunk), 0 ≤ off → 0 ≤ lenP → off + lenP < 9223372036854775808 →
+  ∀ (bound lenP off : Int) (script : List Chunk), I64 off → 0 ≤ lenP → lenP < 9223372036854775808 →
     (∀ c ∈ script, ChunkSane bound c) → (countC (fileReadAt bound lenP off script).1 : Int) ≤ lenP + 1
 
-/-- It does not hold for the current code: a chunk that lies beyond the end of the file makes the
-store's `ReadAt` deliver 0 bytes (io.EOF is accepted), `nr` stays where it is and the same chunk
-is asked for again — for ever in the real code, for as long as the script lasts here. -/
+/-- It does not hold for the current code: when the store's `ReadAt` delivers 0 bytes for a chunk
+that does contain the position (io.EOF is accepted) and the chunk cache does not take the data,
+`nr` stays where it is and the same chunk is asked for again — for ever in the real code, for as
+long as the script lasts here. -/
 theorem read_progress_full_fails : ¬ ReadProgressFull := by
   intro h
-  have := h 1024 1 0 [⟨0, 1, 0, -1⟩, ⟨0, 1, 0, -1⟩, ⟨0, 1, 0, -1⟩] (by decide) (by decide) (by decide) (by
+  have := h 1024 1 0 [⟨0, 1, 0, -1⟩, ⟨0, 1, 0, -1⟩, ⟨0, 1, 0, -1⟩] (by unfold I64; omega) (by decide) (by decide) (by
     intro c hc
     simp only [List.mem_cons, List.mem_nil_iff, or_false, or_self] at hc
     subst hc
-    exact ⟨by decide, by decide, by decide, by decide⟩)
+    exact ⟨by unfold I64; simp only []; omega, by unfold I64; simp only []; omega, by decide⟩)
   exact absurd this (by decide)
 
 /-- Non-vacuity: a page-sized read of a 10-byte file in chunks of 4, 4 and 2 bytes. -/
@@ -263,7 +279,8 @@ def PassthroughTotalFull : Prop :=
 
 /-- It does not hold for the current code: chunk entries that overlap (file of 6 bytes, chunks
 `[0,4)` and `[2,6)`, merge buffer 6) are packed behind each other into one batch and the second one
-is sliced beyond the batch buffer; the straddle test of commit 6332cf7 looks at each chunk alone. -/
+is sliced beyond the batch buffer; the straddle test of commit 6332cf7 and `chunkContains`
+(95288ee) look at each chunk alone (known finding). -/
 theorem passthrough_total_full_fails : ¬ PassthroughTotalFull := by
   intro h
   exact h 6 2 [(0, 4), (2, 4)] (by decide) (by decide) (by decide)
